@@ -22,6 +22,9 @@ Proof.
   - apply nth_set_nth_neq; lia.
 Qed.
 
+Lemma nth_map_in {A B} (f : A -> B) d d' : forall l n, n < length l -> nth n (map f l) d = f (nth n l d').
+Proof. induction l; destruct n; simpl; intros; try lia; auto. apply IHl; lia. Qed.
+
 Lemma map_const_repeat {A B} (c : B) : forall l : list A, map (fun _ => c) l = repeat c (length l).
 Proof. induction l; simpl; congruence. Qed.
 
